@@ -6,6 +6,7 @@ package main
 import (
 	"fmt"
 	"net/url"
+	"strings"
 	"time"
 
 	jose "github.com/go-jose/go-jose/v4"
@@ -134,6 +135,7 @@ type flow struct {
 	tags     []string
 	redirect string // the validated redirect URI an error redirect may go to ("" = none)
 	thorough bool   // only in the thorough tier
+	light    bool   // quick tier: the reduced set of failure values (the three "warm" values + plain method plans)
 	rejected bool   // the fault-free answer is itself an error (the request is invalid)
 	prep     func(e env) func() *opfix.Resp
 }
@@ -141,8 +143,26 @@ type flow struct {
 func b(x bool) string { return emit.Bool(x) }
 
 func coqMode(m string) string {
-	return map[string]string{"": "MDefault", "form_post": "MFormPost", "query": "MQuery"}[m]
+	return map[string]string{"": "MDefault", "form_post": "MFormPost", "query": "MQuery", "fragment": "MFragment"}[m]
 }
+
+func coqRT(rt string) string {
+	return map[string]string{"code": "TCode", "id_token": "TIDToken", "id_token token": "TIDTokenToken"}[rt]
+}
+
+// every response_mode a client can ask for ("" = none: query for code, fragment for tokens) and
+// every response_type the library implements (it has no hybrid flow: "code id_token" etc. are
+// rejected by ValidateAuthReqResponseType before any auth request exists)
+var (
+	allModes = []string{"", "form_post", "query", "fragment"}
+	allRTs   = []string{"code", "id_token", "id_token token"}
+)
+
+// lightMode: response modes that share the redirect encoder with the default mode run the reduced
+// set of failure values in the quick tier; form_post (its own writer: 200 + HTML form) runs them all.
+func lightMode(mode string) bool { return mode == "query" || mode == "fragment" }
+
+func rtTag(rt string) string { return strings.ReplaceAll(rt, " ", "+") }
 
 func flows() []flow {
 	var fs []flow
@@ -151,13 +171,25 @@ func flows() []flow {
 	const full = "openid profile email offline_access"
 	const noOff = "openid profile email"
 
-	// ---- authorization endpoint
+	// ---- authorization endpoint: every response type x response mode for the first client
 	for _, cn := range []string{"web", "native"} {
-		c := clients[cn]
-		add(flow{coq: emit.Ctor("FAuthorize", c.coq, "false"), name: "authorize", tags: []string{"client=" + cn, "hint=false"}, redirect: c.redirect,
-			prep: func(e env) func() *opfix.Resp {
-				return func() *opfix.Resp { return e.f.Get(e.r, "/authorize", e.authQuery(c, "code", full, "")) }
-			}})
+		for _, rt := range allRTs {
+			for _, mode := range allModes {
+				if cn == "native" && (rt != "code" || mode != "") {
+					continue
+				}
+				c := clients[cn]
+				scope := full
+				if rt != "code" {
+					scope = noOff
+				}
+				add(flow{coq: emit.Ctor("FAuthorize", c.coq, "false", coqRT(rt), coqMode(mode)), name: "authorize",
+					tags: []string{"client=" + cn, "hint=false", "rt=" + rtTag(rt), "mode=" + mode}, redirect: c.redirect, light: rt != "code" || lightMode(mode),
+					prep: func(e env) func() *opfix.Resp {
+						return func() *opfix.Resp { return e.f.Get(e.r, "/authorize", e.authQuery(c, rt, scope, mode)) }
+					}})
+			}
+		}
 	}
 	// a redirect_uri that is NOT registered: nothing has been validated, so any error redirect is open
 	for _, cn := range []string{"web", "native"} {
@@ -173,7 +205,7 @@ func flows() []flow {
 	}
 	{
 		c := clients["web"]
-		add(flow{coq: emit.Ctor("FAuthorize", c.coq, "true"), name: "authorize", tags: []string{"client=web", "hint=true"}, redirect: c.redirect,
+		add(flow{coq: emit.Ctor("FAuthorize", c.coq, "true", "TCode", "MDefault"), name: "authorize", tags: []string{"client=web", "hint=true", "rt=code", "mode="}, redirect: c.redirect,
 			prep: func(e env) func() *opfix.Resp {
 				t := e.tokensOf(c, full)
 				return func() *opfix.Resp {
@@ -185,9 +217,9 @@ func flows() []flow {
 	}
 	// ---- callback
 	for _, cn := range []string{"web", "spa"} {
-		for _, mode := range []string{"", "form_post"} {
+		for _, mode := range allModes {
 			c := clients[cn]
-			add(flow{coq: emit.Ctor("FCallbackCode", c.coq, coqMode(mode)), name: "callback_code", tags: []string{"client=" + cn, "mode=" + mode}, redirect: c.redirect, thorough: mode != "",
+			add(flow{coq: emit.Ctor("FCallbackCode", c.coq, coqMode(mode)), name: "callback_code", tags: []string{"client=" + cn, "mode=" + mode}, redirect: c.redirect, light: lightMode(mode),
 				prep: func(e env) func() *opfix.Resp {
 					id := e.loggedIn(c, "code", full, mode)
 					return func() *opfix.Resp { return e.f.Callback(e.r, id) }
@@ -196,13 +228,13 @@ func flows() []flow {
 	}
 	for _, cn := range []string{"web", "web2"} {
 		for _, withAT := range []bool{false, true} {
-			for _, mode := range []string{"", "form_post", "query"} {
+			for _, mode := range allModes {
 				c := clients[cn]
 				rt := "id_token"
 				if withAT {
 					rt = "id_token token"
 				}
-				add(flow{coq: emit.Ctor("FCallbackImplicit", c.coq, b(withAT), coqMode(mode)), name: "callback_implicit", tags: []string{"client=" + cn, "at=" + b(withAT), "mode=" + mode}, redirect: c.redirect, thorough: mode != "",
+				add(flow{coq: emit.Ctor("FCallbackImplicit", c.coq, b(withAT), coqMode(mode)), name: "callback_implicit", tags: []string{"client=" + cn, "at=" + b(withAT), "mode=" + mode}, redirect: c.redirect, light: lightMode(mode),
 					prep: func(e env) func() *opfix.Resp {
 						id := e.loggedIn(c, rt, noOff, mode)
 						return func() *opfix.Resp { return e.f.Callback(e.r, id) }
